@@ -26,6 +26,9 @@ def cells(tier):
     for name in nnet_calls.NAMES:
         for dt in ("float64", "float32"):
             yield ("nnet", name, dt)
+    for how in ("copy", "copy.copy", "astype", "astype_other", "tensor", "Tensor", "astensor_other_dtype", "astensor_const", "copy_const"):
+        for src in ("leaf", "terminal", "view"):
+            yield ("conv", how, src)
     for aname, depth in BOUNDS[tier]:
         for h in programs(aname, depth):
             yield ("prog", aname, h)
@@ -111,7 +114,11 @@ def check_op(i, name):
         args.append(mg.tensor(a) if k == "t" else (a if k == "a" else float(a)))
     extras = [case.get("index"), case.get("mask")]
     before = [snap(x) for x in args + extras]
-    out = case["mg"](*args)
+    try:
+        out = case["mg"](*args)
+    except Exception as e:
+        del e
+        return ("skip", "the forward call raised (reported by C02)")
     if [snap(x) for x in args + extras] != before:
         return ("forward_modified_input", "an operand, index object or mask was modified by the forward call")
     if not isinstance(out, mg.Tensor):
@@ -176,7 +183,44 @@ def check_prog(aname, h):
     return None
 
 
+def check_conv(how, src):
+    """conversions of a tensor that already holds a gradient: the result shares neither data nor gradient with it"""
+    import copy as _copy
+
+    import mygrad as mg
+
+    x = mg.tensor(np.array([0.5, -1.25, 2.0, 0.75]))
+    v = x[1:]
+    out = (v * np.array([1.5, -2.0, 0.5])).sum() * 1.0 if src != "terminal" else None
+    seed = None
+    if src == "terminal":
+        y = x * 3.0
+        seed = np.array([0.25, 0.5, -1.0, 2.0])
+        y.backward(seed)
+        t = y
+    else:
+        out.backward()
+        t = x if src == "leaf" else v
+    gkeep = None if seed is None else seed.copy()
+    f = {"copy": lambda: t.copy(), "copy.copy": lambda: _copy.copy(t), "astype": lambda: t.astype(t.dtype), "astype_other": lambda: t.astype("float32"),
+         "tensor": lambda: mg.tensor(t), "Tensor": lambda: mg.Tensor(t), "astensor_other_dtype": lambda: mg.astensor(t, dtype="float32"),
+         "astensor_const": lambda: mg.astensor(t, constant=True), "copy_const": lambda: t.copy(constant=True)}[how]
+    c = f()
+    if c is t:
+        return ("identity", "%s returned the tensor itself" % how)
+    tensors = [("x", x), ("v", v), ("t", t), ("converted", c)]
+    tensors = [(n, a) for i, (n, a) in enumerate(tensors) if all(a is not b for _, b in tensors[:i])]
+    if how != "astensor_const" and np.shares_memory(c.data, t.data):
+        return ("aliasing", "%s shares data with its source" % how)
+    r = alias_oracle(tensors, seed, t if seed is not None else None)
+    if r is None and seed is not None and not np.array_equal(seed, gkeep):
+        r = ("seed_modified", "the caller's seed changed while probing gradients")
+    return r
+
+
 def check(cell):
+    if cell[0] == "conv":
+        return check_conv(cell[1], cell[2])
     if cell[0] == "op":
         return check_op(cell[1], cell[2])
     if cell[0] == "nnet":
